@@ -455,3 +455,47 @@ func (e byteEdit) apply(b byte) []byte {
 	}
 	return append(out, s[e.pos+1:]...)
 }
+
+// ---------------------------------------------------------------------------
+// member names x failing values
+
+// memberNames is the boundary alphabet of member names (as JSON literals):
+// the empty name, a one-space name, names needing escapes, the last BMP code
+// point, an astral name, plain names.
+var memberNames = []string{`""`, `" "`, `"a"`, `"\""`, `"\u0000"`, "\"\u00e9\"", `"\uffff"`, `"\ud83d\ude00"`, `"z"`}
+
+// memberValues: values whose load fails in some mode (integers beyond int64,
+// floats beyond float64), containers that exceed a small allocation cap, the
+// same one level further down, and values that load in every mode.
+var memberValues = []string{
+	`1`, `-0`, `1.5`, `"s"`, `null`, `9223372036854775807`, `9223372036854775808`, `-9223372036854775809`, `10000000000000000000`,
+	`123456789012345678901234567890`, `1e400`, `-1e400`, `[1,2,3]`, `{"p":1,"q":2,"r":3}`, `[9223372036854775808]`, `{"":9223372036854775808}`, `{"":1e400}`,
+}
+
+// memberShapes place one member N:V at every object position: only member,
+// first, last, in an element, in a member value, under the empty name, padded.
+var memberShapes = []struct{ pre, mid, post string }{
+	{"{", ":", "}"}, {"{", ":", `,"m":1}`}, {`{"m":1,`, ":", "}"}, {"[{", ":", "}]"}, {`{"o":{`, ":", "}}"}, {`{"":{`, ":", "}}"}, {"[0,{", ":", "},0]"}, {" { ", " : ", " } "},
+}
+
+const memberCap = 2
+
+func memberDocs() [][]byte {
+	var out [][]byte
+	var pairs []string
+	for _, n := range memberNames {
+		for _, v := range memberValues {
+			for _, sh := range memberShapes {
+				out = append(out, []byte(sh.pre+n+sh.mid+v+sh.post))
+			}
+			pairs = append(pairs, n+":"+v)
+		}
+	}
+	// two members: every name/value pair with every other (equal names included: last wins)
+	for _, a := range pairs {
+		for _, b := range pairs {
+			out = append(out, []byte("{"+a+","+b+"}"))
+		}
+	}
+	return out
+}
